@@ -5,6 +5,7 @@ pub mod c09;
 pub mod c10;
 pub mod c18;
 pub mod c19;
+pub mod c20;
 pub mod lines;
 pub mod lists;
 pub mod clean;
@@ -20,6 +21,7 @@ pub fn run(ctx: &mut Ctx) -> bool {
         "C07" => tok::check(ctx, "C07"),
         "C08" => tok::check(ctx, "C08"),
         "C10" => c10::check(ctx),
+        "C20" => c20::check(ctx),
         "C18" => c18::check(ctx),
         "C19" => c19::check(ctx),
         "C15" => lists::check(ctx, "C15"),
@@ -45,6 +47,7 @@ pub fn replay(property: &str, sub: &str, case: &Value, obs: &mut Obs) -> Result<
     match property {
         "C07" | "C08" => tok::replay(property, sub, case, obs),
         "C10" => c10::replay(sub, case, obs),
+        "C20" => c20::replay(sub, case, obs),
         "C18" => c18::replay(sub, case, obs),
         "C19" => c19::replay(sub, case, obs),
         "C15" | "C16" | "C17" => lists::replay(property, sub, case, obs),
